@@ -2294,7 +2294,8 @@ class Problem(object, metaclass=ProblemMetaclass):
             # case data comes from list_inputs/list_outputs, keyed on absolute pathname
             # we need it to be keyed on promoted name
             if 'inputs' in case:
-                inputs = {meta['prom_name']: meta for meta in case['inputs'].values()}
+                # inputs are looked up by absolute name below, which is how list_inputs keys them
+                inputs = case['inputs']
             else:
                 inputs = None
             if 'outputs' in case:
